@@ -56,6 +56,7 @@ type c11Sys struct {
 
 	obsMu    sync.Mutex
 	observed map[[16]byte]bool
+	samples  []map[string]string
 }
 
 func c11Systems() []*c11Sys {
@@ -765,6 +766,11 @@ func TestVerifC11_hist_group(t *testing.T) {
 		}()
 	}
 	wg.Wait()
+	for _, s := range systems { // fixed order: samples must not depend on goroutine timing
+		if len(s.samples) > 0 {
+			r.Sample(s.samples[0])
+		}
+	}
 	r.Set("mode", modes)
 	r.Set("depth_completed", depths)
 	r.Set("states_per_group", perGroupStates)
